@@ -642,6 +642,11 @@ func writeNestedTypeConversion(w *formatting.IndentedWriter, typeChange dsl.Type
 			writeNestedTypeConversion(w, tc.InnerChange, sourceName+".value()", tmpName, write, depth+1)
 			fmt.Fprintf(w, "%s = std::move(%s);\n", targetName, tmpName)
 		})
+		fmt.Fprintf(w, "} else {\n")
+		w.Indented(func() {
+			// the target may hold the value of a previous stream item
+			fmt.Fprintf(w, "%s = {};\n", targetName)
+		})
 		fmt.Fprintf(w, "}\n")
 
 	case *dsl.TypeChangeOptionalToScalar:
@@ -651,6 +656,10 @@ func writeNestedTypeConversion(w *formatting.IndentedWriter, typeChange dsl.Type
 			fmt.Fprintf(w, "if (%s.has_value()) {\n", sourceName)
 			w.Indented(func() {
 				fmt.Fprintf(w, "%s = %s.value();\n", targetName, sourceName)
+			})
+			fmt.Fprintf(w, "} else {\n")
+			w.Indented(func() {
+				fmt.Fprintf(w, "%s = {};\n", targetName)
 			})
 			fmt.Fprintf(w, "}\n")
 		} else {
@@ -666,6 +675,10 @@ func writeNestedTypeConversion(w *formatting.IndentedWriter, typeChange dsl.Type
 			w.Indented(func() {
 				fmt.Fprintf(w, "%s = std::get<%d>(%s);\n", targetName, tc.TypeIndex, sourceName)
 			})
+			fmt.Fprintf(w, "} else {\n")
+			w.Indented(func() {
+				fmt.Fprintf(w, "%s = {};\n", targetName)
+			})
 			fmt.Fprintf(w, "}\n")
 		} else {
 			// Reading a Scalar into a Union
@@ -680,6 +693,10 @@ func writeNestedTypeConversion(w *formatting.IndentedWriter, typeChange dsl.Type
 			fmt.Fprintf(w, "if (%s.index() == %d) {\n", sourceName, tc.TypeIndex)
 			w.Indented(func() {
 				fmt.Fprintf(w, "%s = std::get<%d>(%s);\n", targetName, tc.TypeIndex, sourceName)
+			})
+			fmt.Fprintf(w, "} else {\n")
+			w.Indented(func() {
+				fmt.Fprintf(w, "%s = {};\n", targetName)
 			})
 			fmt.Fprintf(w, "}\n")
 		} else {
